@@ -1,3 +1,5 @@
+import ast
+
 from outsourcer import Code
 
 from . import utils
@@ -50,8 +52,16 @@ class List(Expression):
         return True
 
     def mentioned_names(self):
-        bounds = (self.min_len, self.max_len)
-        return [x for x in bounds if isinstance(x, str) and x.isidentifier()]
+        names = set()
+        for bound in (self.min_len, self.max_len):
+            if isinstance(bound, str) and not bound.isdigit():
+                # A name, or inline Python that may mention names.
+                try:
+                    tree = ast.parse(bound.strip(), mode='eval')
+                except SyntaxError:
+                    continue
+                names.update(x.id for x in ast.walk(tree) if isinstance(x, ast.Name))
+        return sorted(names)
 
     def _compile(self, out, flags):
         if self.max_len == 0 or self.max_len == '0':
@@ -68,7 +78,7 @@ class List(Expression):
 
         with out.WHILE(True):
             if runtime_max:
-                with out.IF(LEN(staging) == Code(self.max_len)):
+                with out.IF(LEN(staging) == _bound(self.max_len)):
                     out += BREAK
 
             if self.expr.can_partially_succeed():
@@ -82,7 +92,7 @@ class List(Expression):
             out += staging.append(RESULT)
 
             if self.max_len is not None and not runtime_max:
-                with out.IF(LEN(staging) == Code(self.max_len)):
+                with out.IF(LEN(staging) == _bound(self.max_len)):
                     out += BREAK
 
         if not self.min_len or self.min_len == '0':
@@ -93,7 +103,7 @@ class List(Expression):
         if self.min_len == 1 or self.min_len == '1':
             condition = staging
         else:
-            condition = LEN(staging) >= Code(self.min_len)
+            condition = LEN(staging) >= _bound(self.min_len)
 
         with out.IF(condition):
             out += RESULT << staging
@@ -107,6 +117,15 @@ class List(Expression):
                 with out.IF(STATUS):
                     out += RESULT << self._underflow.error_func()
                     out += STATUS << False
+
+
+def _bound(value):
+    # A bound is spliced into a comparison: inline Python other than a name or
+    # a number keeps its meaning only in parentheses.
+    text = str(value)
+    if text.isidentifier() or text.isdigit():
+        return Code(text)
+    return Code(f'({text})')
 
 
 def _check_min_and_max_len(min_len, max_len):
